@@ -71,7 +71,7 @@ def _decorator(sd, same_body_names):
         return "@default_state"
     args = []
     if k == "timed":
-        args.append(f"duration={sd['dur']!r}*1e-6")
+        args.append("duration=0.0" if sd["dur"] == 0 else f"duration={sd['dur']!r}*1e-6")
         nx = sd.get("next")
         if nx is not None:
             if sd.get("nobj") and nx in same_body_names:
@@ -111,6 +111,8 @@ def class_source(case, base):
             if l != lvl:
                 continue
             params = ", ".join(["self"] + list(sd["sig"]))
+            if sd.get("posonly"):
+                params += ", /"  # positional-only parameters are ordinary named parameters for the framework
             argd = ", ".join(f"{p!r}: {p}" for p in sd["sig"])
             body.append("    " + _decorator(sd, seen))
             body.append(f"    def {sd['n']}({params}):")
@@ -142,6 +144,9 @@ class Rec:
             self.next_state_now(ref)
         elif act[0] == "done":
             self.done()
+        elif act[0] == "nsn2":
+            self.next_state_now(ref)
+            self.next_state_now(getattr(type(self), act[2]) if self._refs_as_objects else act[2])
         elif act[0] == "dnsn":
             self.done()
             self.next_state_now(ref)
@@ -437,6 +442,16 @@ class SpecSM:
                 self.bump("act:next_state_now")
                 self._enter(act[1])
                 self.execute(now, now_d, ev, depth + 1)
+            elif act and act[0] == "nsn2":
+                # two next_state_now() calls in one body: the engage request was used up by the first nested
+                # iteration, so the second one runs as an iteration without a request
+                self.bump("act:two-next_state_now")
+                self._enter(act[1])
+                self.execute(now, now_d, ev, depth + 1)
+                if not self.executing:
+                    self.left_selected = act[2]  # the machine stopped in between: what follows is a left-over selection
+                self._enter(act[2])
+                self.execute(now, now_d, ev, depth + 1)
             elif act and act[0] == "dnsn":
                 self.bump("act:done-then-next_state_now")
                 if not ev.take_done():
@@ -721,7 +736,9 @@ class Driver:
                     elif k in ("done", "on_disable"):
                         was = model.executing
                         getattr(m, k)()
-                        if not any(e[0] == "done" for e in m._trace):
+                        if not any(e[0] == "done" for e in m._trace) and lab.pid in ("C04", "C13"):
+                            # (for the other properties the case goes on: if the machine was not really reset the
+                            # consequences show up as their kind of mismatch)
                             model.miss(f"done-missing@{k}", {"C04", "C13"}, f"{k}() did not go through done()")
                         model.op_done()
                         if spec.auto:
@@ -907,6 +924,12 @@ class Driver:
             if not self.lab.flag(f"{pid}/{kind}", full):
                 pass
         else:
+            # mismatches that belong to other properties: the case only has to be given up when model and
+            # implementation no longer run the same states; wrong arguments / flags / markers leave them in step
+            if not any(k.startswith(("wrong-state", "extra-call")) for k, _, _ in model.mism):
+                del model.mism[:]
+                model.bump("other-property-mismatch-ignored")
+                return
             model.bump("truncated:other-property")
         raise Abandon()
 
@@ -952,7 +975,7 @@ def trace_rules(pid, spec, rows, lab):
 # generators
 # --------------------------------------------------------------------------
 
-DUR_POOL = [20_000, 1, 500, 19_999, 20_001, 39_999, 50_000, 100_000, 130_001, 250_000, 500_000, 1_000_000, 1_500_000, 5_000_000]
+DUR_POOL = [20_000, 1, 500, 19_999, 20_001, 39_999, 50_000, 100_000, 130_001, 250_000, 500_000, 1_000_000, 1_500_000, 0]  # includes a zero-length timed state
 ADV_POOL = [20_000, 0, 1, 5_000, 20_000, 20_000, 20_000, 40_000, 60_000, 130_000, 1_000_000, 10_000_000]
 SIGS = [()]
 for _r in (3, 2, 1):
@@ -1002,6 +1025,8 @@ def decode_shape(code, profile):
         timed = kind_c >= timed_cut
         sd = {"n": names[i], "kind": "timed" if timed else "state", "first": i == first_i, "mf": mf_c == 3,
               "sig": SIGS[sig_c], "doc": bool(doc), "lvl": lvl % levels, "script": []}
+        if mf_c == 2 and sig_c % 3 == 0:
+            sd["posonly"] = True
         if timed:
             sd["dur"] = DUR_POOL[dur_pool] if dur_pool < len(DUR_POOL) else max(1, dur_free)
             sd["next"] = None if nxt_c < 4 else names[(nxt_c - 4) % nreg]
@@ -1135,6 +1160,10 @@ def decode_auto_case(code):
         for k, sd in enumerate(case["states"]):
             if sd["kind"] != "default":
                 sd["script"] = [([["dns", "dnsn"][(k + j) % 2], regular[(k + j) % len(regular)]] if a == ["done"] else a) for j, a in enumerate(sd["script"])]
+    if t0_c == 2:
+        for k, sd in enumerate(case["states"]):
+            if sd["kind"] != "default":
+                sd["script"] = [(["nsn2", a[1], regular[(k + j + 1) % len(regular)]] if a[0] == "nsn" and j % 2 == 0 else a) for j, a in enumerate(sd["script"])]
     timed = [sd["n"] for sd in case["states"] if sd["kind"] == "timed"]
     case["auto"] = True
     hist = []
@@ -1281,6 +1310,13 @@ class C03(SMLab):
 class C04(SMLab):
     pid = "C04"
     design_ref = "3.1/C04"
+
+    def strategy(self):
+        deep = self.tier == "thorough"
+        sm = sm_cases(self.pid, deep=deep)
+        # an AutonomousStateMachine is a StateMachine too: its stops go through the same done()/flag protocol
+        return st.one_of(sm, sm, sm, sm, sm, auto_cases(deep=deep))
+
     rule = (
         "same generator biased to short engagement runs (many stops and re-engagements), with and without a default state; oracle = SpecSM: done() marker for every stop cause, "
         "is_executing / current_state (attribute and independent NetworkTables subscriber) after every operation, restart at the first or requested state with tm==0 and "
